@@ -60,6 +60,7 @@ type feedWorld struct {
 	cancel       context.CancelFunc
 	cancelled    bool
 	inner        feeder.Witness // stub or real
+	failDelay    time.Duration  // how long an injected transient failure takes before it is reported
 	compete      func()         // moves the real witness between the feeder's read and its update
 	competed     bool
 }
@@ -69,6 +70,9 @@ var errTransient = errors.New("injected transient failure")
 // transientErr is what an injected transient failure returns: a plain error, or - as a peer behind its own per-request
 // deadline would report it - an error that wraps a context error although the FEED's context is alive and well.
 func (fw *feedWorld) transientErr() error {
+	if fw.failDelay > 0 {
+		time.Sleep(fw.failDelay) // the failing peer takes its time before it fails (a request that runs into a timeout)
+	}
 	switch fw.errFlavour {
 	case 1:
 		return fmt.Errorf("injected transient failure: request to peer: %w", context.DeadlineExceeded)
@@ -216,6 +220,9 @@ func c13Exec(t *testing.T, p *Plan) (r *c13Result) {
 			return MakeNote(text, w.Sign(ld.KeyIdx, cp))
 		}
 		fw := &feedWorld{pattern: p.Cfg.Notes["fail"], cancelAt: -1, errFlavour: int(p.Cfg.Extra["err_flavour"]), wrapNotExist: p.Cfg.Extra["wrap_notexist"] != 0}
+		if p.Cfg.Notes["cancel"] == "" && p.Cfg.Notes["mode"] != "run" { // (the delay does not watch the context: not where stopping promptly is judged)
+			fw.failDelay = time.Duration(p.Cfg.Extra["fail_delay_s"]) * time.Second
+		}
 		var closeBase func()
 		defer func() {
 			if closeBase != nil {
@@ -383,6 +390,22 @@ func c13Exec(t *testing.T, p *Plan) (r *c13Result) {
 				c.Proof = pr
 				return pr, nil
 			},
+		}
+		if p.Cfg.Notes["cp"] == "wrongorigin" && ex["primed"] != 0 {
+			// the same process has just fed those very bytes for the log they belong to (a sibling on the same key, as the shards
+			// of one log are): whatever it remembers from that must not make them pass for this log
+			sib := &stubWitness{wkey: w.WitKeys[0].Key}
+			sopts := opts
+			sopts.LogOrigin, sopts.LogID, sopts.Witness = ld.Origin+"/x", LogID(ld.Origin+"/x"), sib
+			sopts.FetchCheckpoint = func(context.Context) ([]byte, error) { return r.fetched, nil }
+			sopts.FetchProof = func(context.Context, log.Checkpoint, log.Checkpoint) ([][]byte, error) { return [][]byte{}, nil }
+			pctx, pcancel := context.WithTimeout(context.Background(), 30*time.Second)
+			_, perr := feeder.FeedOnce(pctx, sopts)
+			pcancel()
+			if perr != nil {
+				r.infra = "priming feed of the sibling log: " + perr.Error()
+				return
+			}
 		}
 		start := time.Now()
 		done := make(chan struct{})
@@ -757,6 +780,7 @@ func init() {
 				ex["wsize"], ex["lsize"] = int64(r.Range(1, 20)), int64(r.Range(21, 40))
 			case 6:
 				notes["cp"] = "wrongorigin"
+				ex["primed"] = int64(r.IntN(2))
 				ex["wsize"], ex["lsize"] = int64(r.Range(1, 20)), int64(r.Range(21, 40))
 			default:
 				notes["cp"] = "fetchfail"
@@ -787,6 +811,7 @@ func init() {
 				ex["compete"] = 1
 			}
 			ex["enum"] = 1
+			ex["fail_delay_s"] = int64(Pick(r, 0, 0, 0, 1, 4, 9)) // injected failures may take seconds to show (a peer's request timing out)
 			ex["err_flavour"] = int64(r.Weighted(60, 25, 15))
 			if r.Chance(0.3) {
 				ex["wrap_notexist"] = 1
